@@ -22,6 +22,7 @@ var (
 	c10Stall      = flag.Duration("c10.stall", 60*time.Second, "C10 stress: real time after which unjoined workers are inspected for a deadlock")
 	c10Confirm    = flag.Duration("c10.confirm", 5*time.Second, "C10 stress: distance between the two goroutine dumps of the deadlock test")
 	c10DumpSlow   = flag.String("c10.dumpslow", "", "C10 stress (diagnostics): write the history with the slowest linearizability check to this file")
+	c10Top        = flag.Int("c10.top", 3, "C10 stress: number of subtrees below the root (1..5)")
 	c10ReplayRuns = flag.Int("c10.replayruns", 200, "C10 replay of a workload (crash / race class): how many free-running executions")
 )
 
@@ -125,6 +126,7 @@ func TestC10Stress(t *testing.T) {
 		rec.Note("open finding %s: handle updates and deletes are serialised by the harness; every prevented overlap is counted in excluded_known", classD6)
 	}
 
+	stressTop = []string{"a", "b", "c", "d", "e"}[:max(1, min(5, *c10Top))]
 	rng := rand.New(rand.NewSource(*vstat.Seed))
 	var worst, total time.Duration
 	worstOps, inconclusive, judged, partitioned, twoStep := 0, 0, 0, 0, 0
